@@ -155,7 +155,7 @@ def lex_literal(dialect, lit):
 def check_escape(run, f, cfg, adt, dialect):
     esc_name = resolve(f, EB, adt, "escape_string")
     try:
-        chain = S.replace_chain(f, esc_name)
+        chain = S.escape_chain(f, esc_name)
     except Anchor as e:
         run.anchor("C03.R1", "%s:escape" % dialect, str(e), cfg)
         return
@@ -242,7 +242,7 @@ def check_bytes(run, f, cfg, adt, dialect):
     if sink is None:
         run.anchor("C03.R5", "%s:write_bytes" % dialect, "expected one sink", cfg)
         return
-    s = T.project(t.effects, sink)
+    s = T.inline_calls(f, T.project(t.effects, sink))       # a shared hex helper is seen through
     fl = [a for a in T.flat(s) if a != ("seq", [])]
     want = L.spec()[dialect]["bytes"]
     ok = len(fl) == 3 and fl[0][0] == "lit" and fl[2][0] == "lit" and fl[1][0] == "loop"
@@ -304,9 +304,12 @@ def check_quoted_holes(run, f, cfg):
             run.anchor("C03.R3", "tir:%s" % name, "TIR extraction failed: %s" % err, cfg)
             continue
         nfn += 1
+        if name.rsplit("::", 1)[-1] in ("escape_string", "unescape_string"):
+            continue        # the escape code itself: its output is decided character by character under R1 / C17
         for sink in t.sinks:
-            s = T.project(t.effects, sink)
+            s = T.inline_calls(f, T.project(t.effects, sink))       # helpers that are handed the sink are seen through
             findings = []
+            bufs = {b: T.inline_calls(f, T.project(t.effects, b)) for b, kd in t.sinks.items() if kd == "buffer" and b != sink}
 
             def atom(st, a, findings=findings):
                 if a[0] == "lit":
@@ -317,9 +320,17 @@ def check_quoted_holes(run, f, cfg):
                     return [q]
                 if a[0] == "reset":
                     return [False]
+                if a[0] == "buf" and a[1] in bufs and a[1] not in seen_bufs:
+                    # the contents of a local string buffer written here: analysed in place, starting in this quote state
+                    seen_bufs.add(a[1])
+                    try:
+                        return sorted(T.flow(bufs[a[1]], frozenset([st]), atom))
+                    finally:
+                        seen_bufs.discard(a[1])
                 if st:   # inside quotes
                     findings.append(a)
                 return [st]
+            seen_bufs = set()
             out = T.flow(s, frozenset([False]), atom)
             seen = set()
             for a in findings:
